@@ -159,6 +159,7 @@ func c08Child(scPath string) int {
 			assets      []string // spellings
 			nested      map[string][]string
 			redirectTo  string
+			jsonMembers map[string][]string
 		}
 		plans := make([]plan, nCrawls)
 		for ci := range plans {
@@ -184,6 +185,23 @@ func c08Child(scPath string) int {
 				ru := fmt.Sprintf("/%sredir/c%d-%d", prefix, ci, k)
 				p.assets = append(p.assets, ru)
 				p.nested[ru] = []string{pu.Spellings[rng.Intn(len(pu.Spellings))]}
+			}
+			// a JSON asset with planned members plus an asset that reaches one of those members through a
+			// two-step redirect chain: the member is fetched (and its JSON parent completed) one pass before
+			// the chain's target comes up for the same URL
+			if rng.Intn(3) == 0 {
+				ju := fmt.Sprintf("/%sd/list%d.json", prefix, ci)
+				var members []string
+				for k := 0; k < 1+rng.Intn(2); k++ {
+					members = append(members, pool[rng.Intn(len(pool))].Canon)
+				}
+				p.assets = append(p.assets, ju)
+				p.jsonMembers = map[string][]string{ju: members}
+				hop1 := fmt.Sprintf("/%sredir2/c%d", prefix, ci)
+				hop2 := fmt.Sprintf("/%sredir/c%d-late", prefix, ci)
+				p.assets = append(p.assets, hop1)
+				p.nested[hop1] = []string{hop2}
+				p.nested[hop2] = []string{members[rng.Intn(len(members))]}
 			}
 			plans[ci] = p
 		}
@@ -227,10 +245,21 @@ func c08Child(scPath string) int {
 					return &fakeResp{Status: 302, Header: http.Header{"Location": {strings.Trim(p.redirectTo, "'")}}}
 				case it.GetParent() == nil || it.GetParent().GetStatus() == models.ItemGotRedirected && it.GetDepth() == 1:
 					return &fakeResp{Status: 200, Header: http.Header{"Content-Type": {"text/html"}}, Body: []byte(page)}
-				case strings.Contains(wire, "/redir/"):
+				case strings.Contains(wire, "/redir/"), strings.Contains(wire, "/redir2/"):
 					for ru, to := range p.nested {
 						if strings.HasSuffix(wire, ru) {
 							return &fakeResp{Status: 301, Header: http.Header{"Location": {strings.Trim(to[0], "'")}}}
+						}
+					}
+					return leafResp()
+				case strings.Contains(wire, "/d/list") && p.jsonMembers != nil:
+					for ju, members := range p.jsonMembers {
+						if strings.HasSuffix(wire, ju) {
+							var parts []string
+							for _, m := range members {
+								parts = append(parts, fmt.Sprintf("%q", m))
+							}
+							return &fakeResp{Status: 200, Header: http.Header{"Content-Type": {"application/json"}}, Body: []byte("[" + strings.Join(parts, ",") + "]")}
 						}
 					}
 					return leafResp()
